@@ -19,7 +19,13 @@
 //
 // A run spec is a comma-separated list of: rs (report-summaries) rc (report-coverage) rp (report-paths)
 // od (summarize-on-demand) nr=<n> (replay the steps of taint.Analyze with that numRoutines; Analyze itself hard-wires
-// NumCPU-1).  Runs are separated by ';'.
+// NumCPU-1) twice (with nr: run the intra-procedural pass a second time on the same state before the inter-procedural
+// pass, as the interactive cli's `summarize` / `rebuild` commands do).  Runs are separated by ';'.
+// Every run is executed under a wall-clock watchdog (-watchdog-s); when it expires the harness prints
+//
+//	k HANG <phase> goroutines=<n>      followed by "k L" lines with the stacks of all goroutines
+//
+// and exits with status 3 (a deadlock of the analysis, e.g. a mutex that is never released).
 package main
 
 import (
@@ -33,6 +39,7 @@ import (
 	"sort"
 	"strconv"
 	"strings"
+	"sync/atomic"
 	"time"
 
 	"github.com/awslabs/ar-go-tools/analysis"
@@ -106,6 +113,7 @@ func main() {
 	reports := flag.String("reports", "", "reports directory (one sub-directory per run is created)")
 	runs := flag.String("runs", "", "run specs, e.g. 'rs;rs,rc,rp;od;nr=0'")
 	settle := flag.Int("settle-ms", 300, "time to wait after the analysis returned before re-measuring")
+	watchdog := flag.Int("watchdog-s", 600, "wall-clock bound of one run (deadlock detection)")
 	flag.Parse()
 	if *cfgPath == "" {
 		*cfgPath = filepath.Join(*dir, "config.yaml")
@@ -118,7 +126,9 @@ func main() {
 	fmt.Println("LOADED")
 
 	for k, spec := range strings.Split(*runs, ";") {
-		p := func(format string, a ...interface{}) { fmt.Printf("%d "+format+"\n", append([]interface{}{k}, a...)...) }
+		p := func(format string, a ...interface{}) {
+			fmt.Printf("%d "+format+"\n", append([]interface{}{k}, a...)...)
+		}
 		cfg, err := config.LoadFromFiles(*cfgPath)
 		if err != nil {
 			fmt.Fprintln(os.Stderr, "config:", err)
@@ -132,6 +142,7 @@ func main() {
 		cfg.ReportsDir = rdir
 		cfg.LogLevel = int(config.ErrLevel)
 		nr := -1
+		twice := false
 		for _, o := range strings.Split(strings.TrimSpace(spec), ",") {
 			switch {
 			case o == "rs":
@@ -144,6 +155,8 @@ func main() {
 				cfg.SummarizeOnDemand = true
 			case strings.HasPrefix(o, "nr="):
 				nr, _ = strconv.Atoi(o[3:])
+			case o == "twice":
+				twice = true
 			case o == "" || o == "none":
 			default:
 				fmt.Fprintln(os.Stderr, "unknown option", o)
@@ -158,38 +171,65 @@ func main() {
 		var state *dataflow.AnalyzerState
 		var expected []string
 		nflows := 0
-		if nr < 0 {
-			res, err := taint.Analyze(cfg, prog, pkgs)
-			if err != nil {
-				fmt.Fprintln(os.Stderr, "analyze:", err)
-			}
-			state = res.State
-			if res.TaintFlows != nil {
-				for _, srcs := range res.TaintFlows.Sinks {
-					nflows += len(srcs)
+		var phase atomic.Value
+		phase.Store("start")
+		done := make(chan struct{})
+		go func() {
+			defer close(done)
+			if nr < 0 {
+				phase.Store("taint.Analyze")
+				res, err := taint.Analyze(cfg, prog, pkgs)
+				if err != nil {
+					fmt.Fprintln(os.Stderr, "analyze:", err)
 				}
+				state = res.State
+				if res.TaintFlows != nil {
+					for _, srcs := range res.TaintFlows.Sinks {
+						nflows += len(srcs)
+					}
+				}
+				return
 			}
-		} else {
 			// the steps of taint.Analyze with an explicit numRoutines
-			state, err = dataflow.NewInitializedAnalyzerState(prog, pkgs, config.NewLogGroup(cfg), cfg)
+			phase.Store("NewInitializedAnalyzerState")
+			st, err := dataflow.NewInitializedAnalyzerState(prog, pkgs, config.NewLogGroup(cfg), cfg)
 			if err != nil {
 				fmt.Fprintln(os.Stderr, "state:", err)
 				os.Exit(2)
 			}
+			state = st
+			phase.Store("AnalysisPreamble")
 			if err := taint.AnalysisPreamble(state); err != nil {
 				fmt.Fprintln(os.Stderr, "preamble:", err)
 				os.Exit(2)
 			}
-			analysis.RunIntraProceduralPass(state, nr, analysis.IntraAnalysisParams{
-				ShouldBuildSummary: dataflow.ShouldBuildSummary, ShouldTrack: taint.IsNodeOfInterest})
+			params := analysis.IntraAnalysisParams{ShouldBuildSummary: dataflow.ShouldBuildSummary, ShouldTrack: taint.IsNodeOfInterest}
+			phase.Store("RunIntraProceduralPass")
+			analysis.RunIntraProceduralPass(state, nr, params)
+			if twice {
+				phase.Store("RunIntraProceduralPass(second time on the same state)")
+				analysis.RunIntraProceduralPass(state, nr, params)
+			}
 			expected = summaryNames(state)
 			nflows = -1
+			phase.Store("RunInterProcedural")
 			for i := range state.Config.TaintTrackingProblems {
 				spec := &state.Config.TaintTrackingProblems[i]
 				visitor := taint.NewVisitor(spec)
 				analysis.RunInterProcedural(state, visitor, analysis.InterProceduralParams{
 					IsEntrypoint: func(node ssa.Node) bool { return taint.IsSourceNode(state, spec, node) }})
 			}
+		}()
+		select {
+		case <-done:
+		case <-time.After(time.Duration(*watchdog) * time.Second):
+			p("HANG %s goroutines=%d", phase.Load(), runtime.NumGoroutine())
+			buf := make([]byte, 1<<20)
+			n := runtime.Stack(buf, true)
+			for _, l := range strings.Split(string(buf[:n]), "\n") {
+				p("L %s", l)
+			}
+			os.Exit(3)
 		}
 		// ---- the analysis has returned: everything below is "after return"
 		g1 := runtime.NumGoroutine()
